@@ -296,6 +296,10 @@ func renderLConvDecl(c LConv) string {
 	if c.Fault == "directive" {
 		b.WriteString("// goverter:bogusSetting yes\n")
 	}
+	if c.Fault == "render" {
+		// user text that only fails when the output file is formatted
+		b.WriteString("// goverter:output:raw func broken( {\n")
+	}
 	b.WriteString("// goverter:enum:unknown @ignore\n")
 	methodDoc := ""
 	in, out := "In", "Out"
